@@ -14,12 +14,15 @@ CONSTANTS
  MaxClose = 0
  MaxInval = 0
  MaxCompact = 0
+ MaxBatch = 1
  FixRelease = TRUE
  DevReleaseRace = TRUE
  DevPutIfOwnerOther = FALSE
  DevReacqBlind = FALSE
  DevDropSameRev = FALSE
  DevNoReload = FALSE
+ DevLoadMerge = FALSE
+ DevPutsFirst = FALSE
  FixRev = TRUE
  KeepHist = TRUE
 INIT Init
